@@ -405,6 +405,25 @@ func runC14(c *core.Ctx) {
 		}
 		e, err := eng.ExtractExpr(leaves[0], isNm)
 		if err != nil {
+			// an arithmetic tree over ANOTHER count (the listed signer keys, a constant …) is a decided
+			// violation: the quorum must be taken over the validators in force
+			var other ssa.Value
+			if _, err2 := eng.ExtractExpr(leaves[0], func(v ssa.Value) bool {
+				if isNm(v) {
+					return true
+				}
+				if cl, isCl := ir.Strip(v).(*ssa.Call); isCl {
+					if bi, isB := cl.Common().Value.(*ssa.Builtin); isB && bi.Name() == "len" {
+						other = cl.Common().Args[0]
+						return true
+					}
+				}
+				return false
+			}); err2 == nil && other != nil {
+				c.Violate("C14.threshold", fn, "m under ["+cf.name+"] ≡ "+cf.wantNm, c.P.Rel(thrIf.Pos()),
+					"the required count is computed from len("+other.Name()+") "+short(other.String())+", not from the validator set in force: the sender chooses how many signatures are needed")
+				continue
+			}
 			c.Broken("C14.threshold", fn, "m under ["+cf.name+"]", c.P.Rel(thrIf.Pos()), err.Error())
 			continue
 		}
